@@ -9,5 +9,6 @@ CONSTANTS
   FlagSets <- Flags_all_magic
   WithAux = TRUE
   MinCalls = 0
+  WithAsm = FALSE
 INVARIANTS WellFormedInv IndexExactInv ContentInv CrcInv StatsInv LiveStatsInv
 CHECK_DEADLOCK FALSE
